@@ -47,6 +47,11 @@ def strategy(tier):
             "alias": draw(st.sampled_from(ALIASES)),
             "remove_unused": draw(st.booleans()),
             "dts": draw(st.lists(st.sampled_from(DTS), min_size=2, max_size=3, unique=True)),
+            # the natural "all schemes in one module" call: Euler generated next to the Rush-Larsen
+            # schemes with their options (stiff states, delta) - Euler must not be affected by them
+            "companions": draw(st.sampled_from([[], [], ["hybrid_rush_larsen"], ["generalized_rush_larsen", "hybrid_rush_larsen"]])),
+            "stiff": draw(st.lists(st.sampled_from(X.state_names(model)), unique=True, max_size=len(model["states"]))),
+            "delta": draw(st.sampled_from([1e-8, 0.5])),
         }
 
     return _s()
@@ -56,13 +61,19 @@ def sample_view(case):
     return {"text": X.render_model(case["model"]), **{k: case[k] for k in ("backend", "alias", "remove_unused", "dts")}, "points": case["points"][:1]}
 
 
-def build_alias(ode, model, backend, alias, remove_unused):
+def build_alias(ode, model, backend, alias, remove_unused, companions=None, stiff=None, delta=1e-8):
     """euler / forward_euler are only reachable through get_scheme + CodeGenerator.scheme"""
     import warnings
     from gotranx.schemes import get_scheme
 
     if alias in ("explicit_euler", "forward_explicit_euler"):
-        return make_mod(backend, ode, model, schemes=[alias], remove_unused=remove_unused)
+        comp = [c for c in (companions or [])]
+        if comp:
+            from props.c02 import grl_ok
+
+            if not grl_ok(model):
+                comp = []
+        return make_mod(backend, ode, model, schemes=[alias] + comp, remove_unused=remove_unused, stiff_states=(stiff or None) if comp else None, delta=delta if comp else 1e-8)
     try:
         with warnings.catch_warnings():
             warnings.simplefilter("ignore")
@@ -98,7 +109,7 @@ def check_case(case):
     backend, alias = case["backend"], case["alias"]
     ctx = {"text": text, "backend": backend, "alias": alias, "remove_unused": case["remove_unused"]}
     try:
-        mod = build_alias(ode, model, backend, alias, case["remove_unused"])
+        mod = build_alias(ode, model, backend, alias, case["remove_unused"], case.get("companions"), case.get("stiff"), case.get("delta", 1e-8))
     except GenError as ex:
         raise Violation(f"C05:{backend}:{ex.signature()}", dict(ctx, error=str(ex)[:800], code=ex.code))
     if not mod.has(alias):
@@ -148,7 +159,7 @@ def check_case(case):
                 n_ok += fullcheck.compare_slots("C05", mod, alias, "state", exp, pt, dt=dt, counters=counters, ctx=ctx)
             else:
                 n_ok += 1
-    labs = [f"backend:{backend}", f"alias:{alias}", f"remove_unused:{case['remove_unused']}"] + [f"dt:{d}" for d in case["dts"]]
+    labs = [f"backend:{backend}", f"alias:{alias}", f"remove_unused:{case['remove_unused']}", f"companions:{len(case.get('companions') or [])}"] + [f"dt:{d}" for d in case["dts"]]
     return {"nontrivial": n_ok > 0 and nonzero and len(model["states"]) >= 2, "labels": labs, "counters": counters}
 
 
